@@ -178,7 +178,8 @@ func canonSelectors(s string) string {
 		if err != nil {
 			b.WriteString(body)
 		} else {
-			// single-value In is the same selector as an equality
+			// canonical spelling: single-value In as an equality, values of an expression sorted, equalities sorted by key;
+			// the order of the expressions is kept as printed (the tool sorts them; an order that leaks is not a matter of spelling)
 			var me []string
 			for _, e := range sel.ME {
 				p := strings.SplitN(e, "|", 3)
@@ -190,8 +191,12 @@ func canonSelectors(s string) string {
 				}
 				me = append(me, e)
 			}
-			sel.ME = me
-			b.WriteString(sel.Key())
+			var ks []string
+			for k, v := range sel.ML {
+				ks = append(ks, k+"="+v)
+			}
+			sort.Strings(ks)
+			b.WriteString(strings.Join(ks, ",") + ";" + strings.Join(me, ";"))
 		}
 		b.WriteString("}")
 		s = s[j:]
